@@ -128,6 +128,7 @@ func runC02(c *report.Ctx) {
 	ruleExplicitInputsDistinct(c)
 	rulePayloadBeforeFeeLoop(c)
 	ruleReservationCacheOwnership(c)
+	ruleEveryInputSized(c)
 
 	// ---- reservation ---------------------------------------------------------------
 	c.Rule("reservation", "every success return of a Create* method passes MarkUsedUTXO, so a second draft cannot select the same coins", 4)
